@@ -26,10 +26,23 @@ reg("C02", ["E1"], E1T,
     "special soundness goals (old state opened, nonce, channel id, close tag, lock linkage, balance update by exactly the amount, range link, pay token is a PS signature on the extracted old state), "
     "integer obligation on the verifier's own digit weights, and binding of every non-response atom / statement component.",
     TB + "; digit signatures exist only for 0..127 and PS unforgeability are assumptions", "DESIGN.md section 4, C02")
+reg("C07", ["E1"], E1T,
+    "Bounded model checking of Signature::verify on symbolic (key, message, signature) incl. decode: result <=> (sigma1 != 1 and pairing relation) on every path; "
+    "every signature derived by chains of sign / randomize / blind_and_randomize+unblind / blind-sign+unblind (length <= 3) is shown to verify on every feasible path when re-randomisers are non-zero and never when the last one is zero; "
+    "message-coordinate, key-element and blinding-factor uniqueness are refutation queries with explicit zero-product lemmas.",
+    TB, "DESIGN.md section 4, C07")
+reg("C08", ["E1"], E1T,
+    "Bounded model checking: SignatureRequestProof::verify_knowledge_of_opening on symbolic proofs returns Some exactly when the Schnorr equation holds, the blind signature is on that proof's own commitment atom, "
+    "honest requests unblind to a signature that verifies on the requester's tuple on every feasible path and on no tuple differing in a coordinate; tampered requests / challenges are refuted.",
+    TB, "DESIGN.md section 4, C08")
 reg("C09", ["E1"], E1T,
     "Bounded model checking: every path of Commitment::{new,verify_opening}, Message::commit, the key->parameter conversions and PedersenParameters::new "
     "is executed symbolically for N in {1,2,3,5}(+8,13) in G1 and G2; exact-map, accept<=>equality, uniqueness and additivity are SMT validity queries over all scalars.",
     TB, "DESIGN.md section 4, C09")
+reg("C10", ["E1"], E1T,
+    "Bounded model checking of the honest provers: for fully symbolic messages and every chosen-commitment-scalar subset, the builder and proof transcripts are identical and verification returns true on every feasible path "
+    "(all verifier decisions flipped, flipped paths proved infeasible); partial-opening, equality, secret-sum, public-addition, public-product and range-link relations are validity queries on the response scalars.",
+    TB, "DESIGN.md section 4, C10")
 reg("C11", ["E1"], E1T,
     "Bounded model checking: the three proof verifiers run on fully symbolic proofs, parameters and challenge (all 2^K paths, N in {1,2,3,5}(+8,13)); "
     "accept <=> Schnorr / pairing relation is an SMT validity query per path; every single-atom, challenge and parameter perturbation is refuted under stated non-degeneracy; "
